@@ -6,6 +6,7 @@ import Sfv.Driver.Sexp
 import Sfv.Model.Container
 import Sfv.Model.Evolve
 import Sfv.Model.SchemaDiff
+import Sfv.Props.C13
 namespace Sfv
 
 structure DState where
@@ -128,6 +129,22 @@ def step (st : DState) (line : String) : DState × String :=
         | .ok (a, _), .ok (b, _) => (st, "(ok " ++ toString (layoutCompatible a b) ++ ")")
         | _, _ => (st, "(bad-op laycompat-undecodable)")
       | _, _ => (st, "(bad-op laycompat)")
+    | .list [.atom "loadfile", .atom "plain", .atom name, .atom memver, .atom hex, .atom expHex] =>
+      match st.env.lookup name, memver.toNat?, parseHex hex, parseHex expHex with
+      | some ty, some memver, some bs, some eb =>
+        match decSchema st.cfg 2 (eb.length + 1) eb with
+        | .ok (exp, _) =>
+          match loadFile st.cfg zooConv (realSchemaCodec st.cfg) (some (fun _ => exp)) ty memver bs with
+          | .ok (v, r) => (st, "(ok " ++ showTV ty v ++ " " ++ toString r.length ++ ")")
+          | .error e => (st, showLoadErr e)
+        | .error _ => (st, "(bad-op loadfile-expected-undecodable)")
+      | _, _, _, _ => (st, "(bad-op loadfile-plain)")
+    | .list [.atom "xload", .atom writer, .atom reader, .atom ver] =>
+      -- must the gate reject? yes if the two types do not even describe the same bytes at `ver`
+      match st.env.lookup writer, st.env.lookup reader, ver.toNat? with
+      | some a, some b, some ver =>
+        (st, if wireEqv (saveWire a ver) (wireOf b ver) then "(ok free)" else "(ok must-reject)")
+      | _, _, _ => (st, "(bad-op xload)")
     | .list [.atom "packed", .atom name, .atom ver] =>
       match st.env.lookup name, ver.toNat? with
       | some ty, some ver => (st, "(ok " ++ toString (isPacked ty ver) ++ ")")
